@@ -132,4 +132,46 @@ theorem cpFrame_calm {s s' : Cpu} {b b' : RecBus} (hf : cpFrame s' = cpFrame s) 
   obtain ⟨c1, c2, c3, c4⟩ := hc
   exact ⟨h1 ▸ c1, h2 ▸ c2, hn ▸ c3, by rw [hi, h3]; exact c4⟩
 
+/-! ### DJNZ -/
+
+/-- the registers a DJNZ loop does not touch -/
+def djnzFrame (s : Cpu) : Cpu := { s with b := 0, q := 0, lastQ := 0, pc := 0, r := 0, memptr := 0 }
+
+/-- iterations of a DJNZ loop: B, or 256 if B = 0 -/
+def loopCount (x : BitVec 8) : Nat := if x = 0 then 256 else x.toNat
+
+theorem loopCount_step (x : BitVec 8) (n : Nat) (h : loopCount x = n + 2) :
+    x - 1 ≠ 0 ∧ loopCount (x - 1) = n + 1 := by
+  unfold loopCount at *
+  split at h <;> (constructor; bv_omega; split <;> bv_omega)
+
+theorem loopCount_one (x : BitVec 8) (h : loopCount x = 1) : x - 1 = 0 := by
+  unfold loopCount at h; split at h <;> bv_omega
+
+theorem sext_fe (x : BitVec 16) : x + 1#16 + sext 254#8 + 1#16 = x := by
+  simp only [sext]; bv_decide
+
+theorem djnz_emulate_step (v : Variant) (s : Cpu) (b : RecBus) (hc : Calm s b)
+    (h0 : b.mem s.pc = 0x10) (h1 : b.mem (s.pc + 1) = 0xFE) :
+    let sb := emulate v (s, b)
+    sb.2.mem = b.mem ∧ sb.2.lines = b.lines ∧ sb.1.b = s.b - 1 ∧
+    sb.1.pc = (if s.b - 1 = 0 then s.pc + 2 else s.pc) ∧ djnzFrame sb.1 = djnzFrame s := by
+  have hd : decode 0x10 = .djnz := by decide
+  have e1 := emulate_main v s b hc (by rw [h0]; decide)
+  rw [h0, hd] at e1
+  rw [e1]
+  simp only [BitVec.ofNat_eq_ofNat] at h1
+  by_cases hz : s.b - 1#8 = 0#8
+  · simp [exec, stepQ, rb_read, rb_read_mem, rb_pccb, lines_pccb, lines_read, lines_nomreq, lines_waitLoop, hz, djnzFrame,
+      a16_add1_add1, waitLoop_mem, rb_nomreq]
+  · simp [exec, stepQ, rb_read, rb_read_mem, rb_pccb, lines_pccb, lines_read, lines_nomreq, lines_waitLoop, hz, djnzFrame,
+      a16_add1_add1, waitLoop_mem, rb_nomreq, h1, sext_fe]
+
+theorem a16_add1_add2 (x : BitVec 16) : x + 1#16 + 2#16 = x + 3#16 := by bv_decide
+
+theorem djnzFrame_calm {s s' : Cpu} {b b' : RecBus} (hf : djnzFrame s' = djnzFrame s) (hl : b'.lines = b.lines)
+    (hc : Calm s b) : Calm s' b' :=
+  hc.transfer ((congrArg (fun c => c.activePrefix) hf).trans hc.1) ((congrArg (fun c => c.skipInt) hf).trans hc.2.1)
+    (congrArg (fun c => c.iff1) hf) hl
+
 end ZxVerif.Z80
